@@ -6,9 +6,15 @@ From Coq Require Import List NArith ZArith Bool.
 From GS Require Import LTS HttpCfg HttpServer HttpCfgProofs HttpInv HttpInvStep2 HttpProps.
 Import ListNotations.
 
+(* The model has two switches for repairs of the code: [stop_locked] (true = Run.shutdown takes r.mutex before
+   Transition(Stopping); the code in /repo, HttpServer.stop_locked_now) and [validated] (C19).  The statements for
+   the code as it is now have [stop_locked = true]; the statements that hold for both variants, and the refutation
+   of the full statement for the old variant, are kept below as *_legacy. *)
+
 (* Every schedule [ls] (any interleaving of Run, the serve goroutines, any number of Reload and Stop
-   callers, cancellation, any callback results incl. changed addresses, any Shutdown results), no foreign
-   binder: whenever the state machine says Running and Run() has not begun its own stopServer,
+   callers, cancellation, any callback results incl. changed addresses, any Shutdown results, Stop/cancel at any
+   time: while Running, right after Running is reported, during a reload), no foreign binder:
+   WHENEVER the state machine says Running,
    - r.server is a server created by the LAST boot from exactly the configuration the runner holds,
    - through a ServeMux that accepted its patterns, one entry per route bound to that route's own chain
      ([route_of_path] answers every path with its own route's name),
@@ -16,7 +22,47 @@ Import ListNotations.
    - and no other server of this runner is bound anywhere. *)
 Theorem C12_running : forall validated mux_ok c0 ls s,
   no_foreign ls ->
-  run (step validated mux_ok) (init c0) ls = Some s ->
+  run (step true validated mux_ok) (init c0) ls = Some s ->
+  fsm_st s = FRunning ->
+  exists sid sv, server s = Some sid /\ nth_error (servers s) sid = Some sv /\
+                 s_cfg sv = cur s /\ s_shut sv = false /\ s_pc sv = SvListening /\
+                 mux_ok (map rpath (routes (cur s))) = true /\
+                 net_get (net s) (addr (cur s)) = Some (Own sid) /\
+                 (forall a sid', net_get (net s) a = Some (Own sid') -> sid' = sid).
+Proof. intros v m c0 ls s. exact (running_serves_repaired true v m c0 ls s eq_refl). Qed.
+
+(* the observations the harness makes are the model's: at such a state a dial succeeds and a request for
+   each configured path is answered by that path's own route *)
+Theorem C12_running_observable : forall validated mux_ok c0 ls s,
+  no_foreign ls ->
+  run (step true validated mux_ok) (init c0) ls = Some s ->
+  crashed s = false -> fsm_st s = FRunning ->
+  step true validated mux_ok s (LObsDial (addr (cur s)) true) = Some s /\
+  step true validated mux_ok s
+    (LObsServe (addr (cur s)) (map (fun r => (rpath r, route_of_path (routes (cur s)) (rpath r))) (routes (cur s))))
+  = Some s.
+Proof. intros v m c0 ls s. exact (running_observable_repaired true v m c0 ls s eq_refl). Qed.
+
+(* Once Run() has returned (hence once Stop() has returned: LStopRet is enabled only then) no server
+   created by this runner is bound to any address: every address it used can be bound again.  Both variants. *)
+Theorem C12_released : forall sl validated mux_ok c0 ls s,
+  no_foreign ls ->
+  run (step sl validated mux_ok) (init c0) ls = Some s ->
+  (exists r, rpc s = RRet r) \/ rpc s = RDone ->
+  forall a sid, net_get (net s) a <> Some (Own sid).
+Proof. exact released. Qed.
+
+Theorem C12_stop_returns_after_run : forall sl validated mux_ok s j s',
+  step sl validated mux_ok s (LStopRet j) = Some s' -> (exists r, rpc s = RRet r) \/ rpc s = RDone.
+Proof. exact stop_ret_after_run. Qed.
+
+(* ---- the old variant (Transition(Stopping) before the mutex), kept for the record ---- *)
+
+(* what held for the old code (and holds for both variants): Running implies serving EXCEPT while Run() is
+   inside its own stopServer *)
+Theorem C12_running_legacy : forall sl validated mux_ok c0 ls s,
+  no_foreign ls ->
+  run (step sl validated mux_ok) (init c0) ls = Some s ->
   fsm_st s = FRunning -> rpc s <> RInStop ->
   exists sid sv, server s = Some sid /\ nth_error (servers s) sid = Some sv /\
                  s_cfg sv = cur s /\ s_shut sv = false /\ s_pc sv = SvListening /\
@@ -25,43 +71,32 @@ Theorem C12_running : forall validated mux_ok c0 ls s,
                  (forall a sid', net_get (net s) a = Some (Own sid') -> sid' = sid).
 Proof. exact running_serves. Qed.
 
-(* the observations the harness makes are the model's: at such a state a dial succeeds and a request for
-   each configured path is answered by that path's own route *)
-Theorem C12_running_observable : forall validated mux_ok c0 ls s,
-  no_foreign ls ->
-  run (step validated mux_ok) (init c0) ls = Some s ->
-  crashed s = false -> fsm_st s = FRunning -> rpc s <> RInStop ->
-  step validated mux_ok s (LObsDial (addr (cur s)) true) = Some s /\
-  step validated mux_ok s
-    (LObsServe (addr (cur s)) (map (fun r => (rpath r, route_of_path (routes (cur s)) (rpath r))) (routes (cur s))))
-  = Some s.
-Proof. exact running_observable. Qed.
-
-(* Once Run() has returned (hence once Stop() has returned: LStopRet is enabled only then) no server
-   created by this runner is bound to any address: every address it used can be bound again. *)
-Theorem C12_released : forall validated mux_ok c0 ls s,
-  no_foreign ls ->
-  run (step validated mux_ok) (init c0) ls = Some s ->
-  (exists r, rpc s = RRet r) \/ rpc s = RDone ->
-  forall a sid, net_get (net s) a <> Some (Own sid).
-Proof. exact released. Qed.
-
-Theorem C12_stop_returns_after_run : forall validated mux_ok s j s',
-  step validated mux_ok s (LStopRet j) = Some s' -> (exists r, rpc s = RRet r) \/ rpc s = RDone.
-Proof. exact stop_ret_after_run. Qed.
-
-(* The window C12_running excludes is real (finding, confirmed on the code): Stop()/cancel arriving while a
-   Reload holds the mutex makes Run() close the listener while the state machine still says Running. *)
-Theorem C12_running_refuted :
-  exists s, run (step false (fun _ => true)) (init wit_cfg) wit_sched = Some s /\
+(* the excluded window was real (finding running-while-stopping:stop-during-reload, confirmed on the old code):
+   Stop()/cancel arriving while a Reload holds the mutex made Run() close the listener while the state machine
+   still said Running ... *)
+Theorem C12_running_refuted_legacy :
+  exists s, run (step false false (fun _ => true)) (init wit_cfg) wit_sched = Some s /\
             fsm_st s = FRunning /\ bound_any (net s) (addr wit_cfg) = false /\ rpc s = RInStop.
 Proof. exact running_while_stopping. Qed.
 
+(* ... and the very same schedule against the repaired shutdown ends in the state Stopping *)
+Theorem C12_witness_repaired :
+  exists s, run (step true false (fun _ => true)) (init wit_cfg) wit_sched = Some s /\
+            fsm_st s = FStopping /\ bound_any (net s) (addr wit_cfg) = false /\ rpc s = RInStop.
+Proof. exact stopping_while_stopping_repaired. Qed.
+
+(* the model the check runs is one of the variants *)
+Theorem C12_model_in_use : stop_locked_now = true.
+Proof. reflexivity. Qed.
+
 Print Assumptions C12_running.
+Print Assumptions C12_running_legacy.
+Print Assumptions C12_running_refuted_legacy.
+Print Assumptions C12_witness_repaired.
+Print Assumptions C12_model_in_use.
 Print Assumptions C12_running_observable.
 Print Assumptions C12_released.
 Print Assumptions C12_stop_returns_after_run.
-Print Assumptions C12_running_refuted.
 
 (* ---- non-vacuity: a schedule that reaches Running on one address, reloads to another, stops ---- *)
 Definition c12_a : config :=
@@ -78,7 +113,7 @@ Definition c12_sched : list label :=
    LStopCall 0; LRunWake; LRunLockStop; LStopCallS 1; LShutdownRet 1 SOk; LRunRet ROk; LStopRet 0;
    LObsDial [66%N] false].
 Example C12_ex_full_cycle :
-  exists s, run (step false (fun _ => true)) (init c12_a) c12_sched = Some s /\
+  exists s, run (step true false (fun _ => true)) (init c12_a) c12_sched = Some s /\
             fsm_st s = FStopped /\ rpc s = RDone /\ net s = [].
 Proof. eexists. split; [vm_compute; reflexivity|]. repeat split. Qed.
 Example C12_ex_no_foreign : no_foreign c12_sched.
